@@ -27,7 +27,13 @@ class StreamBackend(LoggerBackend):
                       ):
         if is_right_for_level(log_data.verbose, log_entry.level):
             for message in log_entry.resolve_messages():
-                self.stderr.write("%s: %s\n" % (log_data.program_name, message))
+                try:
+                    self.stderr.write("%s: %s\n" % (log_data.program_name, message))
+                except (IOError, OSError):
+                    # stderr on a full disk or a closed pipe: a message that
+                    # cannot be written must not stop the trashing half-way
+                    # (the .trashinfo is written, the file not yet moved)
+                    pass
 
 
 def is_right_for_level(verbose,  # type: int
